@@ -16,6 +16,7 @@
 From Coq Require Import List NArith Bool.
 From FIM Require Import Base.Assoc Gen.PGConst Model.Store Model.StoreDisjoint.
 From FIM Require Import Proofs.IsolationBase Proofs.IsolationShared Proofs.IsolationFrame Proofs.IsolationDisjoint.
+From FIM Require Import Proofs.RefineSim Proofs.IsolationClone.
 Import ListNotations.
 Open Scope N_scope.
 
@@ -67,3 +68,59 @@ Theorem C04_frame_histories_disjoint : forall ops d g',
   (forall o, In o ops -> target o <> g') -> dget (drun ops d) g' = dget d g'.
 Proof. exact frame_histories_disjoint. Qed.
 Print Assumptions C04_frame_histories_disjoint.
+
+(* ---- clones ---- *)
+(* after ANY history of well-formed operations ([wf_op]: imported graphs are networkx graphs), cloning a
+   graph that has nodes (all carrying a NodeID, as add_graph demands) succeeds and the new id sees
+   exactly the source's nodes - same order, same properties except GraphID := new id, fresh consecutive
+   internal ids - and exactly the source's links between the corresponding nodes *)
+Theorem C04_clone_same : forall ops g g2 ns es,
+  (forall o, In o ops -> wf_op o = true) -> g <> g2 ->
+  let s := srun ops init_store in
+  view (sg s) g = (ns, es) -> ns <> [] -> existsb node_id_missing ns = false ->
+  snd (s_clone s g g2) = Ok RUnit /\
+  view (sg (fst (s_clone s g g2))) g2 = (stamp g2 (relabel_nodes ns (snext s)), map (relabel_edge ns (snext s)) es).
+Proof. exact clone_same_all. Qed.
+Print Assumptions C04_clone_same.
+
+(* later changes to either do not show up in the other (instance of the frame theorem) *)
+Theorem C04_clone_independent : forall pre g g2 ops,
+  g <> g2 -> (forall o, In o ops -> frame_scope o = true /\ (target o = g \/ target o = g2)) ->
+  let s := srun (pre ++ [OClone g g2]) init_store in
+  view (sg (srun (filter (fun o => N.eqb (target o) g) ops) s)) g2 = view (sg s) g2 /\
+  view (sg (srun (filter (fun o => N.eqb (target o) g2) ops) s)) g = view (sg s) g.
+Proof. exact clone_independent. Qed.
+Print Assumptions C04_clone_independent.
+
+(* one nx.Graph per id: the clone under an id that holds no nodes is the relabelled, re-stamped copy of
+   the source's whole nx.Graph.  _partial: the two structural facts of nx.Graph (links join stored nodes,
+   one link per pair) are hypotheses here; they are proved invariant only for the shared store
+   (clone_invariants_run) and, for this flavour, for the histories of C05 (closed_step_disjoint). *)
+Theorem C04_clone_same_disjoint_partial : forall d g g2,
+  EClosed (dget d g) -> EDist (dget d g) ->
+  gn (dget d g2) = [] -> existsb node_id_missing (gn (dget d g)) = false ->
+  snd (d_clone d g g2) = Ok RUnit /\
+  dget (fst (d_clone d g g2)) g2 =
+    mkG (stamp g2 (relabel_nodes (gn (dget d g)) 1)) (map (relabel_edge (gn (dget d g)) 1) (ge (dget d g))).
+Proof. exact clone_same_disjoint. Qed.
+Print Assumptions C04_clone_same_disjoint_partial.
+
+(* ---- non-vacuity: two graphs, an import whose keys collide with stored internal ids, a re-import,
+   a clone; the operations on g0 / g2 leave g1 as it was ---- *)
+Definition ex_pre : list op :=
+  [OAddNode 11 20 30 None; OAddNode 11 21 30 None; OAddLink 11 20 40 21 None].
+Definition ex_ops : list op :=
+  [OImport 10 (mkI [(1, [(k_nodeid, PV 20); (k_class, PV 30)]); (2, [(k_nodeid, PV 21)])] [(1, 2, [(k_class, PV 40)])]);
+   OImport 10 (mkI [(1, [(k_nodeid, PV 22)])] []); OClone 10 12; OAddNode 12 23 31 None; ODelGraph 10;
+   OUpdNodes 12 50 (PV 60)].
+
+Example C04_nonvacuous :
+  forallb (fun o => frame_scope o && negb (N.eqb (target o) 11) && wf_op o) ex_ops = true /\
+  view (sg (srun (ex_pre ++ ex_ops) init_store)) 11 =
+    ([(1, [(k_graphid, PV 11); (k_nodeid, PV 20); (k_class, PV 30)]);
+      (2, [(k_graphid, PV 11); (k_nodeid, PV 21); (k_class, PV 30)])], [(1, 2, [(k_class, PV 40)])]) /\
+  view (sg (srun (ex_pre ++ ex_ops) init_store)) 12 =
+    ([(6, [(k_graphid, PV 12); (k_nodeid, PV 22); (50, PV 60)]);
+      (7, [(k_graphid, PV 12); (k_nodeid, PV 23); (k_class, PV 31); (50, PV 60)])], []) /\
+  snext (srun (ex_pre ++ ex_ops) init_store) = 8.
+Proof. vm_compute. repeat split. Qed.
